@@ -117,12 +117,29 @@ func (c *SierraClass) Version() uint64 {
 	return 1
 }
 
+// sierraClassVersionTag precedes the semantic version in the first element of the class hash.
+const sierraClassVersionTag = "CONTRACT_CLASS_V"
+
+// maxSemanticVersionLen is the longest semantic version that fits, behind the tag, the 31 bytes a
+// field element holds without being reduced.
+const maxSemanticVersionLen = 31 - len(sierraClassVersionTag)
+
 func (c *SierraClass) Hash() (felt.Felt, error) {
+	// The tag and the version are hashed as ONE field element and felt.SetBytes reduces modulo the
+	// field prime: a version that does not fit would wrap around, i.e. several version strings
+	// would give the same class hash and the version would no longer be committed by it.
+	if len(c.SemanticVersion) > maxSemanticVersionLen {
+		return felt.Felt{}, fmt.Errorf(
+			"sierra class version is %d bytes long, at most %d fit the class hash",
+			len(c.SemanticVersion), maxSemanticVersionLen,
+		)
+	}
+
 	externalEntryPointsHash := sierraEntryPointsHash(c.EntryPoints.External)
 	l1HandlerEntryPointsHash := sierraEntryPointsHash(c.EntryPoints.L1Handler)
 	constructorHash := sierraEntryPointsHash(c.EntryPoints.Constructor)
 	return crypto.PoseidonElems(
-		felt.NewFromBytes[felt.Felt]([]byte("CONTRACT_CLASS_V"+c.SemanticVersion)),
+		felt.NewFromBytes[felt.Felt]([]byte(sierraClassVersionTag+c.SemanticVersion)),
 		&externalEntryPointsHash,
 		&l1HandlerEntryPointsHash,
 		&constructorHash,
